@@ -7,12 +7,12 @@ CHECKS = {
   'technique': 'Coq proof by structural induction over a deep embedding of the operator language + exact object-graph / value correspondence',
  },
  'C02': {
-  'text': 'Coq theorem: every Conj/+/composition tree is linear over the scalar ring (complex a included), given linear nodes; re-indexing, gather and finite-sum leaf families proved linear. Determinism and non-mutation are run-time aliasing facts: decided by a byte-snapshot sweep over every operator tree (input and captured arrays, after .H/.N are cached), every Prox class and every public array function in three memory layouts.',
-  'note': 'Trusted: Coq kernel; functional_extensionality_dep (stdlib axiom, used for linearity of compositions); the snapshot harness. No static alias analysis: a mutation on a path the sweep does not execute is not seen.',
+  'text': 'Coq theorems: EVERY operator expression is linear over the scalar ring (complex scalars included: Conj conjugates on both sides) — every leaf class with a modelled denotation (incl. the block operators via a generic linearity theorem for loop nests applied to the six GENERATED kernels), every combinator incl. Hstack/Vstack/Diag, with linearity of the library oracle as the only hypothesis and not even well-formedness; the executed (re-tabulating) model is linear too. Determinism and non-mutation are run-time aliasing facts: decided by a byte-snapshot sweep over every operator tree (input and captured arrays, after .H/.N are cached), every Prox class and every public array function in three memory layouts, plus a static may-alias scan of the sources whose new reports trigger the sweep.',
+  'note': 'Trusted: Coq kernel; functional_extensionality_dep (stdlib axiom) for linearity of compositions; the snapshot harness and tools/alias_scan.py (support tools, not proofs). A mutation on a path neither the sweep executes nor the scan recognises is not seen.',
   'technique': 'Coq proof (linearity by induction over the deep embedding) + dynamic byte-snapshot purity sweep',
  },
  'C03': {
-  'text': "Coq theorems: A*B applies B then A (incl. flattening of nested compositions), A+B / A-B add results; Hstack, Vstack and Diag ARE the block-row, block-column and block-diagonal matrices along the axis (any axis in [-ndim, ndim), or flattened for None) with split points proved to be the prefix sums of the members' sizes; misfitting operands are rejected by the constructor model and accepted only with the advertised shapes. The constructor/shape model is compared exactly with the implementation on random trees and a malformed stream; values exactly on integers; the dense matrix of each tree against an independent numpy block-matrix assembly.",
+  'text': "Coq theorems: A*B applies B then A (incl. flattening of nested compositions), A+B / A-B add results; Hstack, Vstack and Diag ARE the block-row, block-column and block-diagonal matrices along the axis (any axis in [-ndim, ndim), or flattened for None) with split points proved to be the prefix sums of the members' sizes; misfitting operands are rejected by the constructor model and accepted only with the advertised shapes. The constructor/shape model is compared exactly with the implementation on random trees and a malformed stream; values exactly on integers; the dense matrix of each tree against an independent numpy block-matrix assembly. The EXECUTED model (which re-tabulates intermediate arrays) is proved equal to the PROVED model on the output box for every well-formed tree over all modelled leaf classes (each shown to read its input only inside the index box).",
   'note': 'Trusted: Coq kernel+vm_compute; hand model Linop.v (checked against the implementation each run); the numpy block-matrix reference as search oracle. No axioms.',
   'technique': 'Coq proof over the deep embedding + exact shape/value correspondence + rejection stream',
  },
